@@ -61,7 +61,8 @@ def run(pid, tier, profile="mixed", own=None, nops=None, streams_per_cfg=None, e
     nops = nops or (500 if tier == "quick" else 4000)
     known = [k for k in C.load_known().get("findings", []) if k.get("property") in own]
     with C.Lock():
-        lean_ok, names = C.lean_phase(res, pid, gen_fn=C.regen_arith, extra_props=extra_props)
+        lean_ok, names = C.lean_phase(res, pid, gen_fn=C.both(C.regen_arith, C.regen_limits) if pid == "C10" else C.regen_arith,
+                                      extra_props=list(extra_props) + (["C10Limits"] if pid == "C10" else []))
     for ph in phases:
         ph(res, tier)
     cfgs = configs(tier, rng, pid)
